@@ -12,9 +12,9 @@ extern "C" {
 #define VP_MAXDIM 9
 #endif
 
-enum { L_MUL, L_T, L_EYE, L_TRI, L_DIAG, L_TRIL, L_TRIU, L_TALL, L_WIDE, L_SQUARE, L_INNER1, L_3DIFF, L_REALS, L_SIGNED_ZERO, L_TALL2 };
+enum { L_MUL, L_T, L_EYE, L_TRI, L_DIAG, L_TRIL, L_TRIU, L_TALL, L_WIDE, L_SQUARE, L_INNER1, L_3DIFF, L_REALS, L_SIGNED_ZERO, L_TALL2, L_LARGE_DIM };
 static char const *const labels[] = {"product", "transpose", "eye", "tri_ones", "diag", "triL", "triU", "rows_gt_cols", "cols_gt_rows", "square",
-                                     "inner_dimension_1", "three_pairwise_different_dims", "real_valued_contents", "signed_zero_in_contents", "rows_ge_cols_plus_2", nullptr};
+                                     "inner_dimension_1", "three_pairwise_different_dims", "real_valued_contents", "signed_zero_in_contents", "rows_ge_cols_plus_2", "dimension_ge_15_up_to_140", nullptr};
 static char const *const metrics[] = {"max_product_error_over_bound", nullptr};
 static uint8_t const dict[] = {0, 1, 2, 3, 8, 9};
 static vp_info const info = {"C09", "linalg", "", labels, metrics, 256, dict, sizeof(dict)};
@@ -42,6 +42,22 @@ static bool biteq(double a, double b) { return memcmp(&a, &b, 8) == 0; }
 
 static void fill(Tape &t, Ctx &cx, Mat &m, int cls)
 {
+    if (size_t(m.r) * m.c > 400)
+    {
+        // large matrices: a position-dependent pattern seeded from the tape (every cell distinct in its row and column neighbourhood)
+        uint32_t a = t.u8() | 1, b = t.u8();
+        for (unsigned i = 0; i < m.r; ++i)
+        {
+            for (unsigned j = 0; j < m.c; ++j)
+            {
+                int v = int((i * 31u + j * 17u + i * j * a + b) % 19u) - 9;
+                m.p[size_t(i) * m.c + j] = cls == 2 ? double(v) + double((i * 7u + j * 3u) % 8u) / 8.0 : double(v);
+            }
+        }
+        cx.hash.add(a | (b << 8));
+        if (cls == 2) { cx.label(L_REALS); }
+        return;
+    }
     for (size_t i = 0; i < size_t(m.r) * m.c; ++i)
     {
         double v;
@@ -101,6 +117,20 @@ static void run_case(Tape &t, Ctx &cx)
         uint8_t op = t.u8() % 20;
         unsigned m = 1 + t.u8() % VP_MAXDIM, n = 1 + t.u8() % VP_MAXDIM, k = 1 + t.u8() % VP_MAXDIM;
         int cls = t.u8() % 3;
+        {
+            // occasionally dimensions well beyond any small-size special case (blocking factors, unrolled tails): up to 140,
+            // independently per dimension so that large shapes are not only square; contents then come from a cheap pattern
+            uint8_t big = t.u8();
+            if (big % 16 == 0)
+            {
+                static unsigned const edge[] = {15, 16, 17, 31, 32, 33, 63, 64, 65, 66, 100, 127, 128, 129, 140};
+                if (big & 16) { m = edge[t.u8() % 15]; }
+                if (big & 32) { n = edge[t.u8() % 15]; }
+                if (big & 64) { k = (op <= 3) ? edge[t.u8() % 10] : k; }
+                if (!(big & 0x70)) { m = edge[t.u8() % 15]; n = edge[t.u8() % 15]; }
+                cx.label(L_LARGE_DIM);
+            }
+        }
         cx.hash.add(op | (m << 8) | (n << 16) | (k << 24));
         switch (op)
         {
